@@ -71,15 +71,41 @@ def _ray_case(args):
     return out
 
 
+def _open_view_case(args):
+    """an unobstructed ray-traced view shows everything (agent's own cell included), also for large views"""
+    h, w = args
+    from gym_gridverse.envs import visibility_functions as vf
+    from gym_gridverse.geometry import Position
+    from gym_gridverse.grid import Grid
+    from gym_gridverse.grid_object import Floor
+    out = {'evaluations': 0, 'nontrivial': 0, 'failures': []}
+    g = Grid([[Floor() for _ in range(w)] for _ in range(h)])
+    for pos in {Position(h - 1, w // 2), Position(0, 0), Position(h // 2, w // 2)}:
+        import warnings
+        with warnings.catch_warnings():
+            warnings.simplefilter('ignore')
+            v = vf.raytracing(g, pos)
+        out['evaluations'] += 1
+        if not v.all():
+            out['failures'].append({'what': 'unobstructed ray-traced view hides a cell', 'shape': [h, w],
+                                    'origin': [pos.y, pos.x], 'hidden': int((~v).sum()),
+                                    'own_cell_visible': bool(v[pos.y, pos.x])})
+    return out
+
+
 def rays(tier, seed):
     n = 7 if tier == 'quick' else 10
     cases = [(h, w, y, x) for h in range(1, n + 1) for w in range(1, n + 1) for y in range(h) for x in range(w)]
     if tier == 'thorough':
         cases += [(13, 13, y, x) for y in range(13) for x in range(13)] + [(7, 13, y, x) for y in range(7) for x in range(13)]
+    big = [(h, w) for h in range(1, 18 if tier == 'quick' else 24) for w in range(1, 18 if tier == 'quick' else 24)
+           if h > n or w > n] + [(7, 31), (31, 7), (3, 63), (31, 31)]
     with mp.Pool(16) as pool:
         res = pool.map(_ray_case, cases, chunksize=8)
+        res += pool.map(_open_view_case, big, chunksize=4)
     return {
-        'what': 'compute_ray / compute_rays_fancy / compute_rays contract (C19)',
+        'what': 'compute_ray / compute_rays_fancy / compute_rays contract (C19); unobstructed ray-traced views up to '
+                '17x17 (thorough 23x23) and 7x31, 31x7, 3x63, 31x31 show every cell',
         'bound': f'all areas with height,width <= {n}' + (' plus 13x13 and 7x13' if tier == 'thorough' else '')
                  + ', two translations, every origin, every fan ray; cache order variations',
         'evaluations': sum(r['evaluations'] for r in res),
